@@ -76,6 +76,14 @@ var Schema = []*Table{
 	{Name: "g", Cols: []string{"gk", "hk2"}, Indexes: []Index{
 		{Mode: 'k', Cols: []string{"gk"}},
 		{Mode: 'i', Cols: []string{"hk2"}, FkTable: "l2", FkMode: 0}}},
+	// a composite foreign key that cascades into a table with a second key made of
+	// SOME of the foreign key columns plus a column of its own: the cascaded change
+	// can collide there although the referenced key change itself is fine
+	{Name: "hd", Cols: []string{"a", "b"}, Indexes: []Index{{Mode: 'k', Cols: []string{"a", "b"}}}},
+	{Name: "ln", Cols: []string{"id", "d1", "d2", "e"}, Indexes: []Index{
+		{Mode: 'k', Cols: []string{"id"}},
+		{Mode: 'k', Cols: []string{"d2", "e"}},
+		{Mode: 'i', Cols: []string{"d1", "d2"}, FkTable: "hd", FkMode: 3}}},
 }
 
 func tableDef(name string) *Table {
